@@ -120,6 +120,13 @@ func c01send(c *h.Ctx, cs *h.Case) {
 			if e := recs[me].Tni.SendToChildren(msg); e != nil {
 				errs = append(errs, e)
 			}
+		case tk[4] == "childrenpar":
+			for j, p := range parent {
+				if p == me {
+					want = append(want, j)
+				}
+			}
+			errs = recs[me].Tni.SendToChildrenInParallel(msg)
 		case tk[4] == "parent":
 			if parent[me] >= 0 {
 				want = append(want, parent[me])
@@ -195,9 +202,11 @@ func c01sendGen(c *h.Ctx, yield func(*h.Case)) {
 		for j := 0; j < 3+r.Intn(8); j++ {
 			me := r.Intn(k)
 			var pat string
-			switch r.Intn(6) {
+			switch r.Intn(7) {
 			case 0:
 				pat = "children"
+			case 6:
+				pat = "childrenpar"
 			case 1:
 				pat = "parent"
 			case 2:
